@@ -433,3 +433,305 @@ Proof.
       apply nodupb_sound. vm_compute. reflexivity. }
   split; [vm_compute; reflexivity |]. split; [vm_compute; reflexivity |]. split; vm_compute; reflexivity.
 Qed.
+
+From Texel Require Import Prelude.GoLoop Prelude.GoAssoc Index.ProofsGenFind.
+From Texel.Gen Require Import FindGen.
+
+(** ** tie G2, whole body: [findIntersectingQuadrants] of pointindex.go REGENERATED from source on this run
+    (gen/FindGen.v, translator/find.go) — the table of quadrants to check AND the loop over it (the [mutexed] flag,
+    the two [continue]s, [certain || lineIntersects], [append]) — computes the model's function.
+
+    REGENERATED: every statement of the function body; the structs [Quadrant] and [quadrantToCheck] (records generated
+    from their declarations).  Called as regenerated elsewhere: getInfiniteQuadrant, containsPoint,
+    quadrantsAreAdjacent, adjacentQuadrantX/Y (PointIndexGen.v, [C02_source_tie]) and lineIntersects with machine
+    integers (LineGen.v, [C02_source_tie_lineIntersects_diff]).
+    MODELLED (trusted mappings of the translator, made after checking the AST): [quadrants map[Q]Quadrant], only read by
+    [quadrant, hasPoints := quadrants[i]], is an association list ([gomap], [gm_get_ok] of Prelude/GoAssoc.v; the theorem
+    holds for EVERY such list [m]); [for _, x := range s] with [continue] is [range_loop] (Prelude/GoLoop.v);
+    [int] quadrant numbers are exact [Z].
+    Statement: [quad_rel q gq] — the struct [gq] has the extent and centroid of the model's quad [q] (its Morton key is
+    not read); [has_rel has m] — for i = 0..3, [m] has an entry for i iff [has i] is [Some q], and they are related;
+    [line_fits a b e] — no int64 subtraction of lineIntersects wraps (as in C02_source_tie_lineIntersects_diff).
+    The Go function returns quadrant NUMBERS, which its caller looks up in the same map; the model returns the
+    quadrants: the numbers [qs] returned select, in order, exactly the model's list. *)
+Theorem C02_source_tie_find_intersecting :
+  forall (a b : pt) (m : gomap Z gen_Quadrant) (gparent : gen_Quadrant) (has : nat -> option quad) (parent : quad),
+  quad_rel parent gparent -> has_rel has m ->
+  (forall i q, lt4 i -> has i = Some q -> line_fits a b (qext q)) ->
+  exists qs : list nat,
+    gen_findIntersectingQuadrants_full (a, b) m gparent = Ok (map Z.of_nat qs) /\
+    Forall lt4 qs /\
+    map has qs = map Some (findIntersectingQuadrants a b has parent).
+Proof. exact generated_find_is_model. Qed.
+Print Assumptions C02_source_tie_find_intersecting.
+
+(** the same, as the caller uses it: [quadrantsWithPoints[q]] for every returned number q gives the model's quadrants *)
+Theorem C02_source_tie_find_intersecting_lookup :
+  forall (a b : pt) (m : gomap Z gen_Quadrant) (gparent : gen_Quadrant) (has : nat -> option quad) (parent : quad)
+         (zero : gen_Quadrant),
+  quad_rel parent gparent -> has_rel has m ->
+  (forall i q, lt4 i -> has i = Some q -> line_fits a b (qext q)) ->
+  exists qs : list Z,
+    gen_findIntersectingQuadrants_full (a, b) m gparent = Ok qs /\
+    Forall2 quad_rel (findIntersectingQuadrants a b has parent) (map (gm_get_or Z.eqb zero m) qs).
+Proof. exact generated_find_lookup. Qed.
+Print Assumptions C02_source_tie_find_intersecting_lookup.
+
+(** the regenerated code runs: parent [0,8) x [0,8) with centre (4,4), segment (1,1) -> (7,6) from quadrant 0 to the
+    diagonal quadrant 3 through quadrant 1.  All four children present: 0, 1, 3 (2 is skipped by the mutex flag);
+    child 1 absent: quadrant 2 is tested and not met: 0, 3; only 1 and 2 present: 1.  The model returns the same. *)
+Example C02_source_tie_find_intersecting_example :
+  let child := fun i : nat => match i with
+                 | 0%nat => mkQuad 0 0 (mkExtent 0 0 4 4) (2, 2) | 1%nat => mkQuad 1 0 (mkExtent 4 0 8 4) (6, 2)
+                 | 2%nat => mkQuad 0 1 (mkExtent 0 4 4 8) (2, 6) | _ => mkQuad 1 1 (mkExtent 4 4 8 8) (6, 6) end in
+  let gq := fun (z : N) (i : nat) => mk_gen_Quadrant z (ext_tuple (qext (child i))) (qcen (child i)) in
+  let parent := mkQuad 0 0 (mkExtent 0 0 8 8) (4, 4) in
+  let gparent := mk_gen_Quadrant 0%N (0, 0, 8, 8) (4, 4) in
+  let all := [(2, gq 2%N 2%nat); (0, gq 0%N 0%nat); (3, gq 3%N 3%nat); (1, gq 1%N 1%nat)] in
+  let no1 := [(0, gq 0%N 0%nat); (2, gq 2%N 2%nat); (3, gq 3%N 3%nat)] in
+  let mid := [(1, gq 1%N 1%nat); (2, gq 2%N 2%nat)] in
+  gen_findIntersectingQuadrants_full ((1, 1), (7, 6)) all gparent = Ok [0; 1; 3] /\
+  gen_findIntersectingQuadrants_full ((1, 1), (7, 6)) no1 gparent = Ok [0; 3] /\
+  gen_findIntersectingQuadrants_full ((1, 1), (7, 6)) mid gparent = Ok [1] /\
+  findIntersectingQuadrants (1, 1) (7, 6) (fun i => Some (child i)) parent = [child 0%nat; child 1%nat; child 3%nat] /\
+  findIntersectingQuadrants (1, 1) (7, 6) (fun i => if Nat.eqb i 1 then None else Some (child i)) parent
+    = [child 0%nat; child 3%nat] /\
+  has_rel (fun i => Some (child i)) all /\ quad_rel parent gparent.
+Proof.
+  cbn zeta. repeat split; try (vm_compute; reflexivity).
+  intros i Hi. unfold lt4 in Hi. destruct i as [| [| [| [| i]]]]; [| | | | lia]; vm_compute; split; reflexivity.
+Qed.
+
+From Texel Require Import Index.ProofsGenHits.
+From Texel.Gen Require Import HitsGen.
+
+(** ** tie G2, whole body: [checkPointHits] of pointindex.go REGENERATED from source on this run (gen/HitsGen.v,
+    translator/hits.go) is the model's hit accounting.
+
+    REGENERATED: every statement of the body after the first two.  MODELLED (trusted mappings, made after checking the
+    AST): the first two statements [levelHitOnce := ix.hitOnce[level]], [levelHitMultiple := ix.hitMultiple[level]]
+    bind references to the inner maps of the receiver — the generated function takes the contents of the two inner
+    maps and returns their contents after the call ([ix] and [level] are used for nothing else; both maps are non-nil
+    because SnapClosestPoints makes them before the call, which the translator checks); [map[intgeom.Point][]int]
+    used through [m[k]] and [m[k] = v] is an association list (Prelude/GoAssoc.v) = the model's [hitmap] with ring ids
+    in [Z] ([hm_conv]); [slices.Contains] on [[]int] is [existsb (Z.eqb x)].
+    Second part: the loop of SnapClosestPoints that calls it for every centre of a level after the first one
+    ([if i > 0]) stays modelled ([snapAndHit]: a fold over the tail); running the regenerated function along that
+    tail ([gen_hit_all] = foldM) gives the model's state. *)
+Theorem C02_source_tie_check_point_hits :
+  (forall (st : hits) (v : pt) (ringId : nat),
+     gen_checkPointHits (hm_conv (hitOnce st)) (hm_conv (hitMultiple st)) v (Z.of_nat ringId)
+     = Ok (hm_conv (hitOnce (checkPointHits st v ringId)), hm_conv (hitMultiple (checkPointHits st v ringId)))) /\
+  (forall g hots (st : hits) (a b : pt) (L ringId : nat),
+     gen_hit_all (Z.of_nat ringId) (hm_conv (hitOnce st), hm_conv (hitMultiple st)) (tl (snapClosestPoints g hots a b L))
+     = let st' := snd (snapAndHit g hots st a b L ringId) in
+       Ok (hm_conv (hitOnce st'), hm_conv (hitMultiple st'))).
+Proof. split; [exact gen_checkPointHits_spec | exact gen_hits_snapAndHit]. Qed.
+Print Assumptions C02_source_tie_check_point_hits.
+
+(** the regenerated code runs: ring 7 hits (5,5) for the first time, ring 8 hits it too, ring 7 hits it again
+    (-> hitMultiple), and again (nothing changes); ring 8 hits (6,6) *)
+Example C02_source_tie_check_point_hits_example :
+  gen_hit_all 7 ([], []) [(5, 5)] = Ok ([((5, 5), [7])], []) /\
+  (do s1 <- gen_hit_all 7 ([], []) [(5, 5)]; do s2 <- gen_hit_all 8 s1 [(5, 5); (6, 6)]; gen_hit_all 7 s2 [(5, 5); (5, 5)])
+    = Ok ([((5, 5), [7; 8]); ((6, 6), [8])], [((5, 5), [7])]) /\
+  fold_left (fun s v => checkPointHits s v 7) [(5, 5); (5, 5)]
+    (fold_left (fun s v => checkPointHits s v 8) [(5, 5); (6, 6)] (checkPointHits (mkHits [] []) (5, 5) 7))
+    = mkHits [((5, 5), [7; 8]%nat); ((6, 6), [8]%nat)] [((5, 5), [7]%nat)].
+Proof. vm_compute. repeat split; reflexivity. Qed.
+
+From Texel Require Import Index.ProofsMortonTie Index.ProofsGenDescent.
+From Texel.Gen Require Import DescentGen.
+
+(** ** tie G2 + refinement, whole bodies: [snapClosestPoints] (the descent over the levels) and [insertCoord] of
+    pointindex.go REGENERATED from source on this run (gen/DescentGen.v, translator/descent.go + find.go).
+
+    The code keys the quadrants of a level by Morton code ([morton.MustToZ x y], children through
+    [getQuadrantZs parent.z]); the model addresses them by (x, y) and looks up (2x+i, 2y+j).  The refinement relation
+    [ix_rel g hots ix] (Index/ProofsGenDescent.v) is key = toZ(x, y): the root quadrant, deepest level, size and
+    resolution of [ix] are the model's, and for every level 1..deepest and every address c below 2^32 the level map of
+    the code has an entry for [key c] iff c is occupied in the model, the entry being the quadrant of c
+    ([gq_quad q] = Morton key of the address, extent, centroid of the model's quad q).
+    (1) DESCENT: for an index that refines [hots], the regenerated snapClosestPoints returns, for every level k that is
+        in [levelMap] and not deeper than the index, exactly the model's [snapClosestQuads g hots a b k] (as quadrants of
+        the code, in order); no entry for any other level; the nil map when [levelMap] is empty or the segment misses the
+        root extent.  It never panics (no MustToZ error) and does not run out of fuel.
+    (2) INSERT: for an index that refines the hot set [hs] and an address inside the grid, the regenerated insertCoord
+        returns a value of the field [ix.quadrants] with which the index refines [hs ++ [(dx, dy)]] — the model's
+        insertPoint; the empty index refines the empty hot set.
+    (3) END TO END: the index built by the regenerated insertCoord from the addresses of a polygon the model accepts,
+        searched by the regenerated snapClosestPoints, gives the model's quads.
+    Uses the C17 theorems about the programs regenerated from morton.go (injectivity of toZ below 2^32, the children
+    of a key) and the ties C02_source_tie_find_intersecting, C17_source_tie_children, C02_source_tie (leaves).
+    Hypotheses: deepest level <= 32 (Morton keys of 2 x 32 bits); [line_fits]: no int64 subtraction of lineIntersects
+    wraps on the root extent and on the extents of the occupied pixels (true when all ordinates are in [-2^62, 2^62)).
+    MODELLED (trusted mappings, listed at the top of gen/DescentGen.v): Go maps used through m[k], v, ok := m[k],
+    m[k] = v, len, make, m[k] == nil only = association lists (Prelude/GoAssoc.v; an entry of a map of maps is never
+    nil); range loops = range_loop; the loops over the levels = Fixpoints on fuel deepestLevel + 1 (+ 2); uint = N with
+    arithmetic modulo 2^64; mathhelp.Pow2 and getQuadrantExtentAndCentroid called as regenerated in PointIndexGen.v
+    (over Z, through the adapters printed in DescentGen.v); insertCoord returns the final value of ix.quadrants.
+    NOT regenerated HERE: InsertPolygon's loops over rings and vertices and its pre-sizing of the maps, InsertPoint's
+    conversion from floats, the wrapper SnapClosestPoints (float conversion of the line and of the centroids, the range
+    over the per-level result map) — these are regenerated in gen/IndexTopGen.v and tied at the end of this file
+    (C02_source_tie_snap_closest_points) and in C09.v (C09_source_tie_insert_polygon). *)
+Theorem C02_source_tie_descent :
+  forall (g : grid) (hots : list (list (Z * Z))) (ix : gen_PointIndex) (a b : pt) (lm : gomap N unit),
+  ix_rel g hots ix -> (gdeep g <= 32)%nat -> line_fits a b (gext g) ->
+  (forall l c, (1 <= l <= gdeep g)%nat -> mem_addr c (hotLookup hots l) = true ->
+     line_fits a b (quadExtent g l (fst c) (snd c))) ->
+  exists result : gomap N (list gen_Quadrant),
+    gen_snapClosestPoints ix (a, b) lm = Ok result /\
+    forall k : N, gm_get N.eqb result k =
+      if negb (gm_len lm =? 0) && lineIntersects a b (gext g) && (k <=? N.of_nat (gdeep g))%N && gm_has N.eqb lm k
+      then Some (map gq_quad (snapClosestQuads g hots a b (N.to_nat k))) else None.
+Proof. exact gen_snapClosestPoints_spec. Qed.
+Print Assumptions C02_source_tie_descent.
+
+Theorem C02_source_tie_insert_coord :
+  (forall g, ix_rel g (hotLevels g []) (gen_empty_index g)) /\
+  (forall (g : grid) (hs : hotset) (ix : gen_PointIndex) (dx dy : Z),
+     ix_rel g (hotLevels g hs) ix -> (gdeep g <= 32)%nat -> 0 <= gres g ->
+     0 <= dx < pow2 (gdeep g) -> 0 <= dy < pow2 (gdeep g) ->
+     exists Q', gen_insertCoord ix dx dy = Ok Q' /\ ix_rel g (hotLevels g (hs ++ [(dx, dy)])) (ix_with ix Q')).
+Proof. split; [exact empty_index_rel | exact gen_insertCoord_spec]. Qed.
+Print Assumptions C02_source_tie_insert_coord.
+
+Theorem C02_source_tie_index_descent :
+  forall (g : grid) (P : list ring) (hs : hotset) (a b : pt) (lm : gomap N unit),
+  (gdeep g <= 32)%nat -> 0 <= gres g -> insertPolygon g P = Ok hs ->
+  line_fits a b (gext g) ->
+  (forall l c, (1 <= l <= gdeep g)%nat -> mem_addr c (hotLookup (hotLevels g hs) l) = true ->
+     line_fits a b (quadExtent g l (fst c) (snd c))) ->
+  exists ix result,
+    foldM gen_insert_one hs (gen_empty_index g) = Ok ix /\
+    gen_snapClosestPoints ix (a, b) lm = Ok result /\
+    forall k : N, gm_get N.eqb result k =
+      if negb (gm_len lm =? 0) && lineIntersects a b (gext g) && (k <=? N.of_nat (gdeep g))%N && gm_has N.eqb lm k
+      then Some (map gq_quad (snapClosestQuads g (hotLevels g hs) a b (N.to_nat k))) else None.
+Proof. exact gen_index_descent_polygon. Qed.
+Print Assumptions C02_source_tie_index_descent.
+
+(** the regenerated code runs: the 32 x 32 pixel grid of pixel size 2, ten inserted addresses, levels 0, 3 and 5
+    requested (in that order of insertion into levelMap: 3, 5, 0): the diagonal (2,2) -> (40,40) meets 1, 4 and 4
+    occupied pixels, the anti-diagonal (3,50) -> (60,1) meets 1, 1 and 0; the model says the same *)
+Example C02_source_tie_descent_example :
+  let g := mkGrid (mkExtent 0 0 64 64) 2 5 in
+  let hs := [(1,1);(20,1);(20,20);(1,20);(5,5);(5,10);(10,10);(10,5);(31,31);(0,0)] in
+  let lm : gomap N unit := [(3%N, tt); (5%N, tt); (0%N, tt)] in
+  let run := fun a b => do ix <- foldM gen_insert_one hs (gen_empty_index g); gen_snapClosestPoints ix (a, b) lm in
+  let model := fun a b => map (fun L : nat => (N.of_nat L, map gq_quad (snapClosestQuads g (hotLevels g hs) a b L))) [0; 3; 5]%nat in
+  run (2, 2) (40, 40) = Ok (model (2, 2) (40, 40)) /\
+  map (fun e => length (snd e)) (model (2, 2) (40, 40)) = [1; 4; 4]%nat /\
+  run (3, 50) (60, 1) = Ok (model (3, 50) (60, 1)) /\
+  map (fun e => length (snd e)) (model (3, 50) (60, 1)) = [1; 1; 0]%nat /\
+  run (100, 100) (200, 100) = Ok [] /\
+  (do ix <- foldM gen_insert_one hs (gen_empty_index g); gen_snapClosestPoints ix ((2, 2), (40, 40)) []) = Ok [].
+Proof. vm_compute. repeat split; reflexivity. Qed.
+
+From Texel Require Import Index.GoTop Index.ProofsGenIndexTop.
+From Texel.Gen Require Import IndexTopGen.
+
+(** ** tie G2, whole body: the exported [SnapClosestPoints] (and [GetHitMultiple]) of pointindex.go and
+    [FromGeomLine] / [Point.ToGeomPoint] / [ToGeomOrd] / [FromGeomOrd] of package intgeom REGENERATED from source on this
+    run (gen/IndexTopGen.v, translator/indextop.go).
+
+    REGENERATED: every statement: the conversion of the line to integers ([ofFline fo]), the call of the regenerated
+    descent, the make of the result map, the loop over the per-level result map with [continue] for a level without
+    quadrants, the makes of the two per-level hit maps, the slice of points, the loop over the quadrants with the
+    conversion of each centroid to floats ([toFpt fo]) and the hit accounting for every centre but the first ([i > 0]).
+    The float operations are abstract: the theorem holds for EVERY [fo : floatops].
+    STATEMENT: for an index whose quadrants refine the model's [hots] (as in C02_source_tie_descent) and whose hit maps
+    hold, level by level, the model's hit states [H k] ([hit_rel]): for EVERY iteration order [ord] of the result map
+    ([goorder_ok]: the entries in any permutation — Go does not define the order), the call succeeds and, for every
+    level k: the result has the entry [map toFpt (centres of level k)] iff k is requested (in [levelMap], not deeper than
+    the index, the segment meets the root extent) and has at least one centre; the hit maps of level k afterwards hold
+    the model's [snapAndHit] state if k is requested and are unchanged otherwise.  So the order only decides in which
+    sequence INDEPENDENT per-level maps are written; nothing of it shows in the result ([C02_source_tie_snap_order]).
+    Hypotheses: as C02_source_tie_descent (deepest level <= 32, [line_fits] on the root and the occupied pixels).
+    MODELLED (trusted mappings, listed at the top of gen/IndexTopGen.v): float64 abstract; Go maps = association lists
+    with the iteration order a parameter; [checkPointHits(ix, v, r, level)] = the regenerated gen_checkPointHits on the
+    two inner maps of that level, written back (reference semantics; accepted only behind the two makes);
+    make([]T, n) / s[i] = v = make_slice / setidx; snapClosestPoints, checkPointHits as regenerated (DescentGen.v,
+    HitsGen.v). *)
+Theorem C02_source_tie_snap_closest_points :
+  forall (fo : floatops) (ord : goorder) (g : grid) (hots : list (list (Z * Z)))
+         (ix : gen_PointIndexT) (line : FLine fo) (lm : gomap N unit) (ringId : nat) (H : N -> hits),
+  goorder_ok ord -> ixT_rel g hots ix -> (gdeep g <= 32)%nat ->
+  let a := fst (ofFline fo line) in
+  let b := snd (ofFline fo line) in
+  line_fits a b (gext g) ->
+  (forall l c, (1 <= l <= gdeep g)%nat -> mem_addr c (hotLookup hots l) = true -> line_fits a b (quadExtent g l (fst c) (snd c))) ->
+  hit_rel H (PointIndexT_hitOnce ix) (PointIndexT_hitMultiple ix) ->
+  exists (h1 h2 : hitsT) (ppl : gomap N (list (FPt fo))),
+    gen_SnapClosestPoints fo ord ix line lm (Z.of_nat ringId) = Ok (h1, h2, ppl) /\
+    forall k : N,
+      let requested := negb (gm_len lm =? 0) && lineIntersects a b (gext g) && (k <=? N.of_nat (gdeep g))%N && gm_has N.eqb lm k in
+      let r := snapAndHit g hots (H k) a b (N.to_nat k) ringId in
+      gm_get N.eqb ppl k = (if requested then match fst r with [] => None | _ :: _ => Some (map (toFpt fo) (fst r)) end else None) /\
+      gm_get_or N.eqb [] h1 k = hm_conv (hitOnce (if requested then snd r else H k)) /\
+      gm_get_or N.eqb [] h2 k = hm_conv (hitMultiple (if requested then snd r else H k)).
+Proof. exact gen_SnapClosestPoints_spec. Qed.
+Print Assumptions C02_source_tie_snap_closest_points.
+
+(** two iteration orders give the same points and the same hit lists, level by level *)
+Theorem C02_source_tie_snap_order :
+  forall (fo : floatops) (ord ord' : goorder) (g : grid) (hots : list (list (Z * Z)))
+         (ix : gen_PointIndexT) (line : FLine fo) (lm : gomap N unit) (ringId : nat) (H : N -> hits),
+  goorder_ok ord -> goorder_ok ord' -> ixT_rel g hots ix -> (gdeep g <= 32)%nat ->
+  line_fits (fst (ofFline fo line)) (snd (ofFline fo line)) (gext g) ->
+  (forall l c, (1 <= l <= gdeep g)%nat -> mem_addr c (hotLookup hots l) = true ->
+     line_fits (fst (ofFline fo line)) (snd (ofFline fo line)) (quadExtent g l (fst c) (snd c))) ->
+  hit_rel H (PointIndexT_hitOnce ix) (PointIndexT_hitMultiple ix) ->
+  exists h1 h2 ppl h1' h2' ppl',
+    gen_SnapClosestPoints fo ord ix line lm (Z.of_nat ringId) = Ok (h1, h2, ppl) /\
+    gen_SnapClosestPoints fo ord' ix line lm (Z.of_nat ringId) = Ok (h1', h2', ppl') /\
+    forall k : N, gm_get N.eqb ppl k = gm_get N.eqb ppl' k /\
+                  gm_get_or N.eqb [] h1 k = gm_get_or N.eqb [] h1' k /\ gm_get_or N.eqb [] h2 k = gm_get_or N.eqb [] h2' k.
+Proof.
+  intros fo ord ord' g hots ix line lm ringId H Ho Ho' Hix Hd Hroot Hfit Hh.
+  destruct (gen_SnapClosestPoints_spec fo ord g hots ix line lm ringId H Ho Hix Hd Hroot Hfit Hh) as (h1 & h2 & ppl & E & P).
+  destruct (gen_SnapClosestPoints_spec fo ord' g hots ix line lm ringId H Ho' Hix Hd Hroot Hfit Hh) as (h1' & h2' & ppl' & E' & P').
+  exists h1, h2, ppl, h1', h2', ppl'. split; [exact E |]. split; [exact E' |].
+  intro k. destruct (P k) as (A1 & A2 & A3). destruct (P' k) as (B1 & B2 & B3). cbv zeta in *.
+  split; [exact (eq_trans A1 (eq_sym B1)) |]. split; [exact (eq_trans A2 (eq_sym B2)) | exact (eq_trans A3 (eq_sym B3))].
+Qed.
+Print Assumptions C02_source_tie_snap_order.
+
+Theorem C02_source_tie_get_hit_multiple : forall (fo : floatops) ix (H : N -> hits) k,
+  hit_rel H (PointIndexT_hitOnce ix) (PointIndexT_hitMultiple ix) ->
+  gen_GetHitMultiple fo ix k = Ok (hm_conv (hitMultiple (H k))).
+Proof. exact gen_GetHitMultiple_spec. Qed.
+Print Assumptions C02_source_tie_get_hit_multiple.
+
+(** the regenerated code runs (float operations: exact decimal fixed point [fo_fixed], for which the codec is the
+    identity): the 32 x 32 grid of pixel size 2 of the example above, ten vertices inserted by the regenerated
+    InsertPolygon, the diagonal (2,2) -> (40,40) snapped TWICE for ring 7 with levels 3, 5, 0 requested, once iterating
+    the result map in map order and once in reverse: the same answers, and the model's (centres, hit lists: the second
+    pass moves the centres after the first into hitMultiple); level 4 is not requested: no entry, no hits *)
+Example C02_source_tie_snap_closest_points_example :
+  let g := mkGrid (mkExtent 0 0 64 64) 2 5 in
+  let poly : list (list (FPt fo_fixed)) := [[(3,3);(41,3);(41,41);(3,41);(11,11);(11,21);(21,21);(21,11);(63,63);(1,1)]] in
+  let lm : gomap N unit := [(3%N, tt); (5%N, tt); (0%N, tt)] in
+  let line : FLine fo_fixed := ((2, 2), (40, 40)) in
+  let levels := [0; 3; 5; 4]%N in
+  let run := fun ord : goorder =>
+    do (Q, e) <- gen_InsertPolygon fo_fixed (gen_empty_indexT g) poly;
+    let ix := PointIndexT_with_quadrants (gen_empty_indexT g) Q in
+    do (h1, h2, ppl) <- gen_SnapClosestPoints fo_fixed ord ix line lm 7;
+    let ix2 := PointIndexT_with_hitMultiple (PointIndexT_with_hitOnce ix h1) h2 in
+    do (h1', h2', ppl') <- gen_SnapClosestPoints fo_fixed ord ix2 line lm 7;
+    Ok (map (fun k => (gm_get N.eqb ppl' k, gm_get_or N.eqb [] h1' k, gm_get_or N.eqb [] h2' k)) levels) in
+  let model :=
+    match insertPolygon g (map (map (ofFpt fo_fixed)) poly) with
+    | Ok hs =>
+        map (fun k : N =>
+               if existsb (N.eqb k) [0; 3; 5]%N then
+                 let r1 := snapAndHit g (hotLevels g hs) (mkHits [] []) (2, 2) (40, 40) (N.to_nat k) 7 in
+                 let r2 := snapAndHit g (hotLevels g hs) (snd r1) (2, 2) (40, 40) (N.to_nat k) 7 in
+                 (Some (fst r2), hm_conv (hitOnce (snd r2)), hm_conv (hitMultiple (snd r2)))
+               else (None, [], [])) levels
+    | Err _ => []
+    end in
+  run goorder_id = Ok model /\ run goorder_rev = Ok model /\
+  map (fun x => length (snd x)) model = [0; 3; 3; 0]%nat.
+Proof. vm_compute. repeat split; reflexivity. Qed.
